@@ -1184,6 +1184,17 @@ class Timeseries:
                     self.__values[ensemble_member][key] = values[:n_delta_e]
         self.__end_datetime = end_datetime
 
+        # Keep the time stamps in step with the values
+        if self.__dt:
+            self.__times = [start_datetime + i * self.__dt for i in range(n_target)]
+        else:
+            self.__times = self.__times[
+                bisect.bisect_left(self.__times, start_datetime) : bisect.bisect_left(
+                    self.__times, end_datetime
+                )
+                + 1
+            ]
+
     @property
     def path(self) -> str:
         """
